@@ -19,6 +19,11 @@ impl ValueCow {
     pub uninterp spec fn vid(&self) -> VId;
     #[verifier::external_body]
     pub fn as_view(&self) -> (r: &dyn ValueView) ensures r.vid_of() == self.vid() { unimplemented!() }
+    pub uninterp spec fn scalar_of(&self) -> Option<ScalarCow>;
+    #[verifier::external_body]
+    pub fn as_scalar(&self) -> (r: Option<ScalarCow>) ensures r == self.scalar_of() { unimplemented!() }
+    #[verifier::external_body]
+    pub fn into_owned(self) -> (r: Value) ensures r.vid() == self.vid() { unimplemented!() }
     #[verifier::external_body]
     pub fn to_value(&self) -> (r: Value) ensures r.vid() == self.vid() { unimplemented!() }
     #[verifier::external_body]
